@@ -24,12 +24,13 @@ import (
 
 // msgCase is one message pushed through rpc.Serve -> handleRPC of the node.
 type msgCase struct {
-	code    uint64
-	cls     string // ok | badarg | badenv | toolarge | txbig | result | random
-	payload []byte
-	size    uint32 // Size field of the message (0 = len(payload))
-	note    string
-	noTrace bool // auxiliary check: judged in Go, not part of the trace
+	code     uint64
+	cls      string // ok | badarg | badenv | toolarge | txbig | result | random
+	payload  []byte
+	size     uint32 // Size field of the message (0 = len(payload))
+	note     string
+	noTrace  bool // auxiliary check: judged in Go, not part of the trace
+	wantFeed int  // auxiliary check: NewBlockEvents expected (bounds how long the connection is kept up)
 }
 
 type msgResult struct {
@@ -172,6 +173,13 @@ func (mb *msgBench) send(c msgCase) msgResult {
 	}
 	res.Same = nd.kv.Digest() == digest0
 	res.Pool = nd.pool.Len() - pool0
+	if c.noTrace {
+		// auxiliary announce checks: keep the connection up while the node digests the fetched block - hanging up right
+		// after the answer makes rpc.Call choose between the result and "peer disconnected" at random
+		for i := 0; i < 30+470*c.wantFeed && len(mb.feed) == 0; i++ {
+			time.Sleep(10 * time.Millisecond)
+		}
+	}
 	res.Feed = len(mb.feed)
 	our.Close()
 	<-runDone
@@ -372,8 +380,8 @@ func (e *env) runMessages(nrand int) {
 	for _, a := range answers {
 		mb.byID = a.f
 		d1 := nd.kv.Digest()
-		mb.send(msgCase{code: proto.MsgNewBlockID, cls: "ok", payload: frameRaw(0, false, raw(e.trunk[5].Header().ID())), note: "announce-check", noTrace: true})
-		deadline := time.Now().Add(400 * time.Millisecond)
+		mb.send(msgCase{code: proto.MsgNewBlockID, cls: "ok", payload: frameRaw(0, false, raw(e.trunk[5].Header().ID())), note: "announce-check", noTrace: true, wantFeed: a.want})
+		deadline := time.Now().Add(time.Duration(400+4600*a.want) * time.Millisecond)
 		got := 0
 		var last *comm.NewBlockEvent
 		for time.Now().Before(deadline) && (a.want == 0 || got == 0) {
